@@ -148,20 +148,27 @@ def legal_doc(kind, k, j):
             "{ a @skip(if: false) @include(if: true) @tag }", "query Q @onlyq { a }", "query Q($n: Int) { a @tag(n: $n) }", "{ q @tag { a @tag b @tag(n: null) } }",
         ]
         return docs[k], ({"s": False, "n": 1} if "$" in docs[k] else {}), None
+    if kind == "defaults":
+        # arguments that are non-null WITH a schema default are optional (5.4.2.1): bare fields / directives, alone or next to other arguments
+        docs = [
+            "{ arg }", "{ q { arg } }", "{ x: arg y: arg(ni: 2) z: arg(i: 1) }", "{ ...F } fragment F on Query { arg }", "{ a @lim }", "{ a @lim(max: 2) b @lim(hint: \"h\") }",
+            "query Q @lim { a }", "query Q($v: Int) { arg(i: $v) a @lim }", "{ ... on Query { arg @lim } }", "{ req(x: 1) arg }",
+        ]
+        return docs[k], ({"v": 1} if "$v" in docs[k] else {}), None
     if kind == "multi":
         doc = "query A { a } query B($v: Int) { arg(i: $v) } mutation C { set(v: 1) } subscription D { t1 } fragment F on Query { a }\nquery E { ...F }"
         return doc, {}, ["A", "B", "C", "E"][k]
     raise AssertionError(kind)
 
 
-SIZES = {"spread": (len(SPREADS), 4), "literal": (len(LITERALS), 4), "varuse": (len(VARUSES), 4), "meta": (8, 1), "repeat": (8, 1), "dirs": (10, 1), "multi": (4, 1)}
+SIZES = {"spread": (len(SPREADS), 4), "literal": (len(LITERALS), 4), "varuse": (len(VARUSES), 4), "meta": (8, 1), "repeat": (8, 1), "dirs": (10, 1), "multi": (4, 1), "defaults": (10, 1)}
 
 
 @obligation(tier="quick", timeout=240, shards=[{"kind": k} for k in SIZES],
             samples=[{"k": 0, "j": 0}, {"k": 3, "j": 1}],
             selectors=["k: construction within the family", "j: site (operation / nested / named fragment / inline fragment)", "shard: family"],
-            bounds="7 families x sites (see LITERALS, SPREADS, VARUSES tables)",
-            note="legal spreads, literals of every accepted kind, allowed variable usages (incl. inside fragments only), meta-fields, repeated fields, directives at every location, several operations")
+            bounds="8 families x sites (see LITERALS, SPREADS, VARUSES tables)",
+            note="legal spreads, literals of every accepted kind, allowed variable usages (incl. inside fragments only), meta-fields, repeated fields, directives at every location, several operations, bare fields / directives whose non-null arguments have schema defaults")
 def c06_legal(k: int, j: int) -> bool:
     """
     post: _
